@@ -344,6 +344,38 @@ pub fn eval(mode: &str, strategy: usize, host: &TableHost, pats: &[TPattern], he
             o.violation(format!("table: find_matches panicked (strategy {}, {})", strategy, heur.to_s()), replay);
             continue;
         };
+        // correspondence: the modelled traversal on the dump of this automaton (multi-valued keys, exotic trees),
+        // and the verified structural / soundness checkers on it
+        {
+            let aut = m.verif_automaton();
+            let raw = aut.verif_dump();
+            let dump = sexp::l(vec![
+                sexp::a(aut.verif_root()),
+                sexp::list(&raw, |st| {
+                    sexp::l(vec![
+                        sexp::a(st.id),
+                        sexp::b(st.deterministic),
+                        sexp::list(&st.matches, |(p, ks)| sexp::l(vec![sexp::a(p.0), sexp::nums(ks)])),
+                        sexp::nums(&st.scope),
+                        sexp::nums(&st.constraint_order),
+                        sexp::nums(&st.epsilon_order),
+                        sexp::list(&st.outgoing, |e| {
+                            sexp::l(vec![sexp::a(e.id), sexp::a(e.target), match &e.constraint { Some(c) => cons_s(c), None => sexp::a("-") }])
+                        }),
+                    ])
+                }),
+            ]);
+            let mut sorted: Vec<(String, S)> = ms.iter().map(|(p, b)| {
+                let s = sexp::l(vec![sexp::a(p), sexp::list(b, |(k, v)| sexp::nums([*k, *v]))]);
+                (s.to_string(), s)
+            }).collect();
+            sorted.sort_by(|a, b| a.0.as_bytes().cmp(b.0.as_bytes()));
+            let exp = sexp::l(vec![sexp::a("ok"), S::L(sorted.into_iter().map(|x| x.1).collect())]).to_string();
+            o.case(sexp::l(vec![sexp::a("tab-run"), host.to_s(), dump.clone()]).to_string(), exp, raw.len() >= 3);
+            let css = S::L(pats.iter().map(|p| if p.convertible { sexp::list(&p.cs, cons_s) } else { S::L(vec![]) }).collect());
+            let present = sexp::list(pats, |p| sexp::b(p.convertible));
+            o.case(sexp::l(vec![sexp::a("tab-cert"), host.to_s(), dump, present, css]).to_string(), "(wf 1 sound 1)".to_string(), raw.len() >= 3);
+        }
         let got: BTreeSet<(usize, Vec<(usize, usize)>)> = ms.into_iter().collect();
         if mode == "c03" || mode == "c04" || mode == "c06" {
             // against the specification ...
